@@ -28,7 +28,8 @@ def levels(tier):
             {"name": "auto-n2", "typed": TPOOL, "default": "domain", "anchored": (1, 3, "path1"), "n": 2, "alphabet": ["we", "page"],
              "every_step": True},
             {"name": "refused", "shapes": [[1, 2, 2]], "n": 2, "prelude": [["we", [[1, 1], [2, 2]]]],
-             "alphabet": ["we", "delbad", "deldup"], "we_two_prefixes": True},
+             "alphabet": ["we", "delbad", "deldup"]},
+            {"name": "mixed-create", "shapes": [[1, 2, 2]], "n": 1, "prelude": [["we", [[1, 1], [2, 2]]]], "alphabet": ["we"], "we_two_prefixes": True},
             {"name": "n3", "shapes": [[1, 2, 2]], "n": 3, "alphabet": ["we", "delwe", "addprefix"]},
         ]
     return [
